@@ -219,7 +219,7 @@ func benignBitmapGuard(info *types.Info, f Fact) bool {
 	}
 	if id, ok := e.(*ast.Ident); ok {
 		// ok variable of a type assertion
-		if v, ok := info.ObjectOf(id).(*types.Var); ok && v.Name() == "ok" {
+		if v, ok := info.ObjectOf(id).(*types.Var); ok && commaOkKind[v] == "typeassert" {
 			return true
 		}
 	}
